@@ -50,6 +50,8 @@ type Sim struct {
 	Attribute   bool // record calling /repo function for writes
 	Fired       map[string]int
 	FiredSteps  []int
+	FiredOps    []int    // CurOp at the time each fault fired
+	FiredFns    []string // attributed /repo function of each faulted call
 	ReadBudget  int // 0 = unlimited; counts all read steps
 	Reads       int
 	Writes      int
@@ -143,6 +145,8 @@ func (s *Sim) next(side, op string, off int64, n int, h *File) (*LogEntry, *trac
 func (s *Sim) fire(kind string, e *LogEntry) {
 	s.Fired[kind]++
 	s.FiredSteps = append(s.FiredSteps, s.Step)
+	s.FiredOps = append(s.FiredOps, s.CurOp)
+	s.FiredFns = append(s.FiredFns, callerFn())
 	if e != nil {
 		e.Fault = kind
 		e.Err = true
@@ -222,7 +226,7 @@ func callerFn() string {
 		fn := fr.Function
 		if strings.HasPrefix(fn, "github.com/scigolib/hdf5") &&
 			!strings.HasPrefix(fn, "github.com/scigolib/hdf5/verifsim") &&
-			!strings.Contains(fn, "internal/writer.(*FileWriter)") {
+			!strings.Contains(fn, "internal/writer.(*FileWriter)") && !strings.Contains(fn, ".(*Verif") {
 			return strings.TrimPrefix(fn, "github.com/scigolib/hdf5")
 		}
 		if !more {
